@@ -517,9 +517,48 @@ def _interface(mon, rec):
                 rec.violation('re-evaluation-differs:interface', 'YaqlInterface call #%d gave %r, expected %r' % (k, got, want), rp)
 
 
+def _sandbox(mon, rec):
+    """a context a host built by hand from contexts.Context() and the library modules it wants, without a #finalize
+    function: evaluating with it (or with a child of it) changes nothing in it"""
+    from yaql.language import contexts as yc
+    from yaql.language import conventions as yconv
+    from yaql.standard_library import collections as std_collections
+    from yaql.standard_library import common as std_common
+    from yaql.standard_library import math as std_math
+    from yaql.standard_library import queries as std_queries
+    from yaql.standard_library import system as std_system
+    for mode_off, eng in ((False, mon.eng_on), (True, mon.eng_off)):
+        root = yc.Context(convention=yconv.CamelCaseConvention())
+        std_system.register_fallbacks(root)
+        std_system.register(root)
+        sandbox = root.create_child_context()
+        std_common.register(sandbox)
+        std_math.register(sandbox)
+        std_collections.register(sandbox)
+        std_queries.register(sandbox)
+        sandbox['limit'] = 3
+        fp0 = ctx_fingerprint(sandbox)
+        for k, (text, use_child) in enumerate((('$.items.select($ + $limit).sum()', False), ('$.items.where($ < $limit).toList()', True),
+                                               ('[$.items.len(), $limit]', False), ('$.items', True), ('$', False))):
+            ctx = sandbox.create_child_context() if use_child else sandbox
+            try:
+                got = ('value', eng(text).evaluate(data=pool_doc(), context=ctx))
+            except Exception as e:
+                got = ('exc', type(e).__name__)
+            rec.count('cases')
+            rec.count('sandbox.evaluations')
+            rec.case(('sandbox', text, use_child, mode_off), nontrivial=True)
+            d = diff_fingerprint(fp0, ctx_fingerprint(sandbox), skip_dollar_in_first=True)
+            if d:
+                rec.violation('host-context-changed:sandbox', 'evaluating %r with a hand-built context without #finalize (child=%s) changed '
+                              'it: %s (outcome %r)' % (text, use_child, d, got), {'kind': 'sandbox', 'mode_off': mode_off})
+                fp0 = ctx_fingerprint(sandbox)
+
+
 def _history(spec, mon, rec):
     rng = rng_for(spec['seed'], 'c09', spec['name'])
     _interface(mon, rec)
+    _sandbox(mon, rec)
     for h in range(spec['count']):
         texts = rng.sample(POOL, 20)
         mode_off = rng.random() < 0.5
@@ -617,7 +656,9 @@ def replay(data, rec):
     mon = Mon(rec)
     try:
         eng = mon.eng_off if data.get('mode_off') else mon.eng_on
-        if data['kind'] == 'interface':
+        if data['kind'] == 'sandbox':
+            _sandbox(mon, rec)
+        elif data['kind'] == 'interface':
             _interface(mon, rec)
         elif data['kind'] == 'contextless':
             st = eng(data['text'])
